@@ -12,11 +12,17 @@ import (
 type C16Case struct {
 	Root   V   `json:"root"`
 	Indent int `json:"indent"`
+	// Muts: mutations of (nested) containers after the first call; FormatString is then called again
+	Muts []CloneMut `json:"muts,omitempty"`
 }
 
 func GenC16(t *rapid.T) *C16Case {
 	ind := []int{-3, -1, -1, 0, 0, 1, 2, 2, 3, 4, 4, 5, 6, 7, 8, 9, 10, 10, 11, 11, 14, -1000, 1 << 40}[drawInt(t, 0, 22, "indent")]
-	return &C16Case{Root: genTreeCase(t), Indent: ind}
+	c := &C16Case{Root: genTreeCase(t), Indent: ind}
+	if oneIn(t, 4, "remutate") {
+		c.Muts = genNestedMuts(t)
+	}
+	return c
 }
 
 func formatOf(c any, n int) string {
@@ -27,6 +33,54 @@ func formatOf(c any, n int) string {
 		return x.FormatString(n)
 	}
 	return ""
+}
+
+// verifyFormat checks one FormatString(indent) call (indent inside 0..10) against the expected tree.
+func verifyFormat(orig any, root V, indent int) error {
+	var out string
+	if p, panicked := catch(func() { out = formatOf(orig, indent) }); panicked {
+		return errf("FormatString(%d) panicked: %v on %s", indent, p, root.Show())
+	}
+	if out == "" {
+		return errf("FormatString(%d) returned the empty string for %s (String() = %s)", indent, root.Show(), clip(stringOf(orig), 200))
+	}
+	j, _, err := CrossCheckScan(out)
+	if err != nil {
+		if hb, ok := err.(*HarnessBug); ok {
+			return hb
+		}
+		return errf("FormatString(%d) is not valid JSON: %v\n tree: %s\n out: %q", indent, err, root.Show(), clip(out, 300))
+	}
+	if err := CompareTokenTree(j, root, "$"); err != nil {
+		return errf("FormatString(%d) denotes different data: %v\n tree: %s\n out: %q", indent, err, root.Show(), clip(out, 300))
+	}
+	canon := CanonicalLayout(j, indent)
+	if canon != out {
+		return errf("FormatString(%d) is not the canonical layout of its own tokens:\n got:  %q\n want: %q", indent, clip(out, 400), clip(canon, 400))
+	}
+	// a re-layout of String(): the same tokens, byte for byte (object members matched by key)
+	js, _, err := CrossCheckScan(stringOf(orig))
+	if err == nil {
+		if err := CompareTokenTree(js, root, "$"); err != nil {
+			return errf("String() differs from the tree (see C02): %v", err)
+		}
+		if err := sameRawTokens(j, js, "$"); err != nil {
+			return errf("FormatString(%d) is not a re-layout of String(): %v\n String():       %s\n FormatString(): %q", indent, err, clip(stringOf(orig), 300), clip(out, 300))
+		}
+	}
+	// and the library itself reads it back as the same container, kinds included
+	back, perr := parseRoot(root.K, out)
+	if perr != nil || back == nil {
+		return errf("the library's own parser rejects FormatString(%d) output: %v: %q", indent, perr, clip(out, 300))
+	}
+	bs, serr := Snap(back)
+	if serr != nil {
+		return serr
+	}
+	if !EqV(bs, root) {
+		return errf("FormatString(%d) does not denote the same data as String(): parsed back it is %s, the container holds %s", indent, bs.Show(), root.Show())
+	}
+	return nil
 }
 
 func CheckC16(c *C16Case, st *Stats) error {
@@ -60,48 +114,8 @@ func CheckC16(c *C16Case, st *Stats) error {
 		return unchanged("a rejected FormatString call")
 	}
 	st.Count("indent.inside")
-	var out string
-	if p, panicked := catch(func() { out = formatOf(orig, c.Indent) }); panicked {
-		return errf("FormatString(%d) panicked: %v on %s", c.Indent, p, root.Show())
-	}
-	if out == "" {
-		return errf("FormatString(%d) returned the empty string for %s (String() = %s)", c.Indent, root.Show(), clip(stringOf(orig), 200))
-	}
-	j, _, err := CrossCheckScan(out)
-	if err != nil {
-		if hb, ok := err.(*HarnessBug); ok {
-			return hb
-		}
-		return errf("FormatString(%d) is not valid JSON: %v\n tree: %s\n out: %q", c.Indent, err, root.Show(), clip(out, 300))
-	}
-	if err := CompareTokenTree(j, root, "$"); err != nil {
-		return errf("FormatString(%d) denotes different data: %v\n tree: %s\n out: %q", c.Indent, err, root.Show(), clip(out, 300))
-	}
-	canon := CanonicalLayout(j, c.Indent)
-	if canon != out {
-		return errf("FormatString(%d) is not the canonical layout of its own tokens:\n got:  %q\n want: %q", c.Indent, clip(out, 400), clip(canon, 400))
-	}
-	// a re-layout of String(): the same tokens, byte for byte (object members matched by key)
-	js, _, err := CrossCheckScan(stringOf(orig))
-	if err == nil {
-		if err := CompareTokenTree(js, root, "$"); err != nil {
-			return errf("String() differs from the tree (see C02): %v", err)
-		}
-		if err := sameRawTokens(j, js, "$"); err != nil {
-			return errf("FormatString(%d) is not a re-layout of String(): %v\n String():       %s\n FormatString(): %q", c.Indent, err, clip(stringOf(orig), 300), clip(out, 300))
-		}
-	}
-	// and the library itself reads it back as the same container, kinds included
-	back, perr := parseRoot(root.K, out)
-	if perr != nil || back == nil {
-		return errf("the library's own parser rejects FormatString(%d) output: %v: %q", c.Indent, perr, clip(out, 300))
-	}
-	bs, serr := Snap(back)
-	if serr != nil {
-		return serr
-	}
-	if !EqV(bs, root) {
-		return errf("FormatString(%d) does not denote the same data as String(): parsed back it is %s, the container holds %s", c.Indent, bs.Show(), root.Show())
+	if err := verifyFormat(orig, root, c.Indent); err != nil {
+		return err
 	}
 	hasEmpty, needsEscape := false, false
 	root.Walk(func(n V, key *string, depth int) {
@@ -124,7 +138,31 @@ func CheckC16(c *C16Case, st *Stats) error {
 	if needsEscape {
 		st.Count("has.escaped_string")
 	}
-	return unchanged("FormatString")
+	if err := unchanged("FormatString"); err != nil {
+		return err
+	}
+	// the container changes (also deep inside, through the nested containers' own handles): every later
+	// FormatString must describe the container as it is then
+	for i, m := range c.Muts {
+		ids := Idents(orig)
+		target := ids[m.Node%len(ids)]
+		var applied bool
+		if p, panicked := catch(func() { applied = applyCloneMut(orig, target, m) }); panicked {
+			return errf("mutation %d (%s) panicked: %v", i, m.Op, p)
+		}
+		if !applied {
+			continue
+		}
+		now, err := Snap(orig)
+		if err != nil {
+			return err
+		}
+		st.Count("reformat_after." + m.Op)
+		if err := verifyFormat(orig, now, c.Indent); err != nil {
+			return errf("after a %s on a nested container: %v", m.Op, err)
+		}
+	}
+	return nil
 }
 
 func init() {
@@ -177,4 +215,15 @@ func sameRawTokens(a, b JV, path string) error {
 		}
 	}
 	return nil
+}
+
+// genNestedMuts draws 1-3 mutations to apply at drawn (nested) containers.
+func genNestedMuts(t *rapid.T) []CloneMut {
+	ops := []string{"add", "insert", "replace", "delete", "pop", "clear", "reverse", "set", "unset", "oclear"}
+	var out []CloneMut
+	for i, n := 0, drawInt(t, 1, 3, "nmuts"); i < n; i++ {
+		out = append(out, CloneMut{Node: genRaw(t), Op: ops[drawIdx(t, len(ops), "mop")], A: genRaw(t),
+			Key: []string{"a", "k", "new key", "é"}[drawIdx(t, 4, "mkey")], V: genValSpec(t, 2)})
+	}
+	return out
 }
